@@ -57,6 +57,7 @@ theorem accStep_fst (l : Last) (acc : List Acc) (r : Rec) : (accStep (l, acc) r)
   | switchIn => rfl
   | switchOut => rfl
   | sched => rfl
+  | otherEvent => rfl
 
 /-! ### what the final flush will say about the buffered samples -/
 
@@ -183,6 +184,63 @@ theorem obs_sample {s : St} (hinv : InvA s) (pid tid t : Nat) (km : Bool) (perio
     have := c4 a
     simp only [e1] at this
     exact this
+
+theorem setThr_self (o : PObs) (tid : Nat) : o.setThr tid (o.thr tid) = o := by
+  refine PObs.ext' rfl rfl (fun b => ?_)
+  simp only [PObs.setThr]
+  split
+  · next e => rw [e]
+  · rfl
+
+/-- a sample of another event: one marker item (not a recorded sample) is appended to the buffer of `pid`;
+queue, thread triples, parked buffers, configuration and the panic flag are unchanged -/
+theorem obs_otherEvent {s : St} (hinv : InvA s) (pid tid t : Nat) (km : Bool) (ip : Nat) (chain : List Nat) :
+    (step s (.otherEvent pid tid t km ip chain)).parked = s.parked ∧
+    (step s (.otherEvent pid tid t km ip chain)).cfg = s.cfg ∧
+    (step s (.otherEvent pid tid t km ip chain)).bad = s.bad ∧
+    ∃ u : USample, u.synth = true ∧ u.marker = true ∧ u.t = t - s.cfg.ref ∧ u.tmono = t ∧
+      u.stack = sampleStack s.cfg km ip chain ∧ u.gpid = pid ∧ u.gtid = tid ∧
+      ∀ a, pobs (step s (.otherEvent pid tid t km ip chain)).procs a =
+        upd (pobs s.procs) pid { pobs s.procs pid with samples := (pobs s.procs pid).samples ++ [u] } a := by
+  have e : step s (.otherEvent pid tid t km ip chain) =
+      commitThread (getThread (getByPid s pid).1 (getByPid s pid).2 tid).1
+        (getThread (getByPid s pid).1 (getByPid s pid).2 tid).2.1 tid
+        (otherEventThread (getThread (getByPid s pid).1 (getByPid s pid).2 tid).1
+          (getThread (getByPid s pid).1 (getByPid s pid).2 tid).2.2 pid tid t
+          (sampleStack (getThread (getByPid s pid).1 (getByPid s pid).2 tid).1.cfg km ip chain)) := rfl
+  rw [e]
+  obtain ⟨c1, c2, _, c4, c5, c6, c7⟩ := obs_commit hinv pid tid
+    (fun s2 th => otherEventThread s2 th pid tid t (sampleStack s2.cfg km ip chain))
+  simp only [] at c4 c5 c6 c7
+  generalize getThread (getByPid s pid).1 (getByPid s pid).2 tid = gt at *
+  have hc : gt.1.cfg = s.cfg := c1
+  refine ⟨c5, c6, by rw [c7]; simp [otherEventThread], ?_⟩
+  refine ⟨markerItem gt.1 gt.2.2.h pid tid t (sampleStack gt.1.cfg km ip chain), ?_, ?_, ?_, ?_, ?_, ?_, ?_, ?_⟩
+  rotate_left 7
+  · intro a
+    have h4 := c4 a
+    simp only [otherEventThread] at h4
+    rw [c2, setThr_self] at h4
+    exact h4
+  · rfl
+  · rfl
+  · show conv gt.1 t = t - s.cfg.ref
+    unfold conv; rw [hc]
+  · rfl
+  · show sampleStack gt.1.cfg km ip chain = _
+    rw [hc]
+  · rfl
+  · rfl
+
+/-- a buffer extended by items that are not recorded samples expects the same output -/
+theorem Fp_append_synth (cfg : Config) (post : List Rec) (k : Nat) (o : PObs) (us : List USample)
+    (h : ∀ u ∈ us, u.synth = true) :
+    Fp cfg post k { o with samples := o.samples ++ us } = Fp cfg post k o := by
+  unfold Fp specBuf
+  simp only [List.filter_append]
+  have : us.filter (fun u => !u.synth) = [] := by
+    rw [List.filter_eq_nil_iff]; intro u hu; simp [h u hu]
+  rw [this, List.append_nil]
 
 /-! ### one record of the history -/
 
@@ -512,6 +570,38 @@ theorem hist_step {cfg : Config} {s : St} {st : List (Nat × Announced)} {last :
   | switchIn pid tid t => exact hok.elim
   | switchOut pid tid t => exact hok.elim
   | sched pid tid t km ip chain => exact hok.elim
+  | otherEvent pid tid t km ip chain =>
+    -- the marker item is no recorded sample: nothing the specification expects changes
+    obtain ⟨o1, _, _, u, u1, _, _, _, _, _, _, o3⟩ := obs_otherEvent hinv pid tid t km ip chain
+    have hl : ∀ k, laterAnn false cfg k none (.otherEvent pid tid t km ip chain :: post) =
+        laterAnn false cfg k none post := fun k => rfl
+    have ha : (accStep (last, []) (.otherEvent pid tid t km ip chain)).1 = last := rfl
+    have hst : annStep cfg st (.otherEvent pid tid t km ip chain) = st := rfl
+    rw [ha] at hsim'
+    rw [ha, hst]
+    have hX : expGo cfg st last (.otherEvent pid tid t km ip chain :: post) = expGo cfg st last post := by
+      simp only [expGo, accStep]; rfl
+    rw [hX]
+    refine ⟨⟨hsim', hlife', ?_, ?_⟩, List.Perm.append_right _ ?_⟩
+    · intro a
+      rw [o3 a]; unfold upd
+      split
+      · next e => rw [e]; exact h.q pid
+      · exact h.q a
+    · intro a b
+      rw [o3 a]; unfold upd
+      split
+      · exact h.noff pid b
+      · exact h.noff a b
+    · rw [Phi_cons_inert cfg s _ post hl]
+      refine Phi_perm_of_obs cfg hn hn' o1 (fun a => ?_)
+      rw [o3 a]; unfold upd
+      split
+      · next e =>
+        rw [e]
+        exact Fp_append_synth cfg post pid _ [u] (fun x hx => by
+          simp only [List.mem_singleton] at hx; rw [hx]; exact u1)
+      · rfl
 
 /-! ### queues and buffers stay sorted when MMAP2 and SAMPLE records arrive in time order -/
 
@@ -694,5 +784,29 @@ theorem sort_step {cfg : Config} {s : St} {st : List (Nat × Announced)} {last :
   | switchIn pid tid t => exact hok.elim
   | switchOut pid tid t => exact hok.elim
   | sched pid tid t km ip chain => exact hok.elim
+  | otherEvent pid tid t km ip chain =>
+    -- the marker item enters the buffer like a sample: its raw time is the new running maximum
+    simp only [orderedFrom, queuedTime, Bool.and_eq_true, decide_eq_true_eq] at ho
+    obtain ⟨o1, _, _, u, _, _, _, u3, _, _, _, o3⟩ := obs_otherEvent hinv pid tid t km ip chain
+    refine ⟨t, ⟨fun a => ?_, fun a => ?_, by rw [o1]; exact hs.parked⟩, ho.2⟩
+    · rw [o3 a]; unfold upd; split
+      · exact ((hs.mono ho.1).q pid)
+      · exact ((hs.mono ho.1).q a)
+    · rw [o3 a]; unfold upd; split
+      · show MonoU ((pobs s.procs pid).samples ++ [u]) ∧ ∀ x ∈ (pobs s.procs pid).samples ++ [u], x.tmono ≤ t
+        refine ⟨?_, ?_⟩
+        · unfold MonoU
+          rw [List.pairwise_append]
+          refine ⟨(hs.u pid).1, List.pairwise_singleton _ _, ?_⟩
+          intro a ha b hb
+          simp only [List.mem_singleton] at hb
+          rw [hb, u3]
+          exact Nat.le_trans ((hs.u pid).2 a ha) ho.1
+        · intro x hx
+          rcases List.mem_append.mp hx with hx | hx
+          · exact Nat.le_trans ((hs.u pid).2 x hx) ho.1
+          · simp only [List.mem_singleton] at hx
+            rw [hx, u3]; exact Nat.le_refl _
+      · exact ((hs.mono ho.1).u a)
 
 end Conv
